@@ -253,8 +253,8 @@ def _run(ctx, thorough, sabin, server, work, t_start):
     tname = "thorough" if thorough else "quick"
     seed = ctx.seed
     gen_base = 1000 + (seed % 250) * 1000
-    gen_count = 280 if thorough else 30
-    n_random = 220 if thorough else 20
+    gen_count = 320 if thorough else 30
+    n_random = 320 if thorough else 20
     mains = (["MC_ServerApp_thorough.cfg", "MC_ServerApp_thorough_hosts.cfg", "MC_ServerApp_thorough_routes.cfg",
               "MC_ServerApp_thorough_hostroutes.cfg"] if thorough else ["MC_ServerApp_quick.cfg"])
     bugs = BUGS if thorough else BUGS_QUICK
@@ -317,6 +317,15 @@ def _run(ctx, thorough, sabin, server, work, t_start):
         ctx.cov["distinct_nontrivial"] += sum(v for k, v in s2["by_class"].items() if k not in ("notfound", "eof"))
         ctx.cov["traces_validated_against_impl"] += summ1["records"] + summ2["records"]
         ctx.add_part("serverapp random", **{k: v for k, v in s2.items() if k not in ("samples", "summary", "errors")})
+
+        # "Thread pool overloaded" is timing: its count is free where the level prints it (ServerApp!LinesAgree); say how often
+        # the line the model expects (a request that waited for a worker) was really there
+        sat = [r for r in recs + recs2 if r["startup"] == "up" and r["cfg"]["level"] != "error" and (r["cfg"]["console"] or r["cfg"]["file"])
+               and any(st["op"] == "sat" and st["obs"]["cls"] != "skipped" for c in r["conns"] for st in c)]
+        sat_seen = sum(1 for r in sat if any(l["what"] == "ThreadPoolOverload" for l in r["flines"] + r["clines"]))
+        ctx.add_part("serverapp overload line", sessions_with_a_request_that_waited_for_a_worker=len(sat), of_which_logged_the_overload=sat_seen)
+        if sat and not sat_seen:
+            ctx.assumptions.append("serverapp: no 'Thread pool overloaded' line was seen in %d sessions that made a request wait > 300 ms" % len(sat))
 
         # ---- 5. binding self-test (only meaningful on a clean validation) ---------------------------
         if not ctx.violations and not ctx.known_hits:
@@ -395,8 +404,8 @@ def _run(ctx, thorough, sabin, server, work, t_start):
         "never used; redirects answer 301 (docs: 302); a websocket-only route answers plain requests 404 and shadows later routes; "
         "upgrade requests are dispatched over the routes that have a `websocket` key only; `host \"*\"` panics at start-up; "
         "the monitor prints 'Request error' lines for status 400 only; a `file` route whose file is missing panics in the worker",
-        "serverapp: log lines are compared as counts per (severity tag, message shape); 'Thread pool overloaded' is accepted more "
-        "often than the model says wherever the level prints it (a slow machine makes tasks wait > 100 ms)",
+        "serverapp: log lines are compared as counts per (severity tag, message shape); the count of 'Thread pool overloaded' is free "
+        "wherever the level prints it (it depends on scheduling) and must be 0 where the level does not",
         "serverapp: the pump's kernel buffers are never full in the model (write_all on the non-blocking sockets never sees WouldBlock); "
         "exchanges up to 5000 bytes per frame are played",
     ]
@@ -416,6 +425,25 @@ def run_replay_case(ctx, case):
             ctx.cov["evaluations"] += summ["steps"]
             ctx.cov["traces_validated_against_impl"] += 1
             report_rejected(ctx, summ, [case["record"]], os.path.join(work, "attr.ndjson"), "replay")
+        finally:
+            shutil.rmtree(work, ignore_errors=True)
+        return True
+    if case.get("kind") == "c15srv-vector" and case.get("cfg") and case.get("rq"):
+        # the configuration and the request of the reported step are played again on the real server; the verdict is
+        # Trace_ServerApp's (nothing is taken from the expectations stored in the file)
+        bindir = build_harness(["serverapp"])
+        server = build_server()
+        work = os.path.join(vlib.workdir("C15srv"), "replay-%d" % os.getpid())
+        os.makedirs(work, exist_ok=True)
+        try:
+            op = case.get("op") or case["rq"]["kind"]
+            vec = {"cfg": case["cfg"], "conns": [[{"op": op, "rq": case["rq"], "ka": bool(case.get("ka"))}]]}
+            s, _, recs = harness(os.path.join(bindir, "serverapp"), ["replay", server, work, "1"], stdin_data=json.dumps(vec) + "\n", what="replay")
+            t, summ = validate(recs, os.path.join(work, "case.ndjson"), label="replay")
+            ctx.add_tlc("replay of one configuration and request on the real server", t)
+            ctx.cov["evaluations"] += summ["steps"]
+            ctx.cov["traces_validated_against_impl"] += 1
+            report_rejected(ctx, summ, recs, os.path.join(work, "attr.ndjson"), "replay")
         finally:
             shutil.rmtree(work, ignore_errors=True)
         return True
